@@ -169,7 +169,7 @@ func (e *Exec) Generate() (err error) {
 		for _, en := range spec.Ensures {
 			t := e.evalSpecBool(en, rvars, r.st, e.entry, "ensures")
 			lbl := clauseLabel(en)
-			o := &Obligation{Func: e.fnName, Kind: "post", Label: fmt.Sprintf("%s@ret%d", lbl, i), Guard: r.st.guard, Goal: t, Facts: r.st.facts, InFunc: fn.String(), Results: r.vals}
+			o := &Obligation{Func: e.fnName, Kind: "post", Label: fmt.Sprintf("%s@ret%d", lbl, i), Guard: r.st.guard, Goal: t, Facts: r.st.facts, InFunc: fn.String(), Results: r.vals, Recs: r.st.recs}
 			o.Pos = e.Prog.Fset.Position(r.pos)
 			o.Cands = append(o.Cands, e.cands...)
 			if !t.IsTrue() {
